@@ -9,7 +9,11 @@
 (*   t = "b" boolean   s = "true" | "false"      c = <<>>                  *)
 (*   t = "i" integer   s = canonical decimal     c = <<>>                  *)
 (*   t = "f" float     s = shortest decimal      c = <<>>                  *)
-(*   t = "s" string    s = string token          c = <<>>                  *)
+(*   t = "s" string    s = string token          c = <<>>   (stored by copy)*)
+(*   t = "l" string    s = string token          c = <<>>   (kept by       *)
+(*                     address: given as a string literal / const char* /  *)
+(*                     JsonString(Linked); observable only through         *)
+(*                     JsonString::isLinked(), field k of the projection)  *)
 (*   t = "r" raw       s = bytes token           c = <<>>                  *)
 (*   t = "a" array     s = ""                    c = elements              *)
 (*   t = "o" object    s = ""                    c = members ("m" nodes)   *)
@@ -26,12 +30,14 @@ BoolV(b)  == [t |-> "b", s |-> IF b THEN "true" ELSE "false", c |-> <<>>]
 IntV(s)   == [t |-> "i", s |-> s, c |-> <<>>]
 FltV(s)   == [t |-> "f", s |-> s, c |-> <<>>]
 StrV(s)   == [t |-> "s", s |-> s, c |-> <<>>]
+LnkV(s)   == [t |-> "l", s |-> s, c |-> <<>>]
 RawV(s)   == [t |-> "r", s |-> s, c |-> <<>>]
 Arr(es)   == [t |-> "a", s |-> "", c |-> es]
 Obj(ms)   == [t |-> "o", s |-> "", c |-> ms]
 Mem(k, v) == [t |-> "m", s |-> k, c |-> <<v>>]
 
-IsScalar(v) == v.t \in {"n", "b", "i", "f", "s", "r"}
+IsScalar(v) == v.t \in {"n", "b", "i", "f", "s", "l", "r"}
+IsStr(v)    == v.t \in {"s", "l"}
 IsColl(v)   == v.t \in {"a", "o"}
 
 Max2(a, b) == IF a > b THEN a ELSE b
@@ -156,7 +162,7 @@ SerSeq(seq, first) ==
 Ser(v) ==
   CASE v.t \in {"n", "x"} -> "null"
     [] v.t \in {"b", "i", "f", "r"} -> v.s
-    [] v.t = "s" -> "\"" \o SerTok(v.s) \o "\""
+    [] v.t \in {"s", "l"} -> "\"" \o SerTok(v.s) \o "\""
     [] v.t = "m" -> "\"" \o SerTok(v.s) \o "\":" \o Ser(v.c[1])
     [] v.t = "a" -> "[" \o SerSeq(v.c, TRUE) \o "]"
     [] v.t = "o" -> "{" \o SerSeq(v.c, TRUE) \o "}"
@@ -199,16 +205,20 @@ NumView(s) ==
     [] OTHER      -> "0/0"
 
 RECURSIVE Proj(_)
+\* Both kinds of string are "s" for the read API; k is JsonString::isLinked(), the one
+\* observation that tells them apart (on purpose: C14).
 Proj(v) ==
-  [t |-> v.t, s |-> v.s,
+  [t |-> IF v.t = "l" THEN "s" ELSE v.t, s |-> v.s,
    c |-> [j \in 1..Len(v.c) |-> Proj(v.c[j])],
    z |-> IF v.t = "m" THEN 0 ELSE Size(v),
    n |-> IF v.t = "m" THEN 0 ELSE Nesting(v),
    b |-> IF v.t = "m" THEN FALSE ELSE Truthy(v),
-   q |-> IF v.t = "s" THEN NumView(v.s) ELSE ""]
+   q |-> IF IsStr(v) THEN NumView(v.s) ELSE "",
+   k |-> v.t = "l"]
 
 \* inverse of Proj on logged values (drops the decorations)
 RECURSIVE Strip(_)
-Strip(pv) == [t |-> pv.t, s |-> pv.s, c |-> [j \in 1..Len(pv.c) |-> Strip(pv.c[j])]]
+Strip(pv) == [t |-> IF pv.t = "s" /\ pv.k THEN "l" ELSE pv.t, s |-> pv.s,
+              c |-> [j \in 1..Len(pv.c) |-> Strip(pv.c[j])]]
 
 =============================================================================
